@@ -15,6 +15,15 @@ import (
 )
 
 var ZZEntries = map[string]func([]int){
+	"HJUnixDec":  func(a []int) { HJUnixDec(a[0], a[1], a[2]) },
+	"HJUnixEnc":  func(a []int) { HJUnixEnc(a[0], a[1], a[2]) },
+	"HJNumText":  func(a []int) { HJNumText(a[0], a[1]) },
+	"HJDate":     func(a []int) { HJDate(a[0], a[1]) },
+	"HJTime":     func(a []int) { HJTime() },
+	"HJDateTime": func(a []int) { HJDateTime(a[0], a[1], a[2]) },
+	"HJDateDec":     func(a []int) { HJDateDec() },
+	"HJTimeDec":     func(a []int) { HJTimeDec() },
+	"HJDateTimeDec": func(a []int) { HJDateTimeDec(a[0]) },
 	"HJDuration": func(a []int) { HJDuration(a[0], a[1]) },
 	"HJIPv6":     func(a []int) { HJIPv6(a[0]) },
 	"HJInt8":   func(a []int) { HJInt8() },
